@@ -324,6 +324,12 @@ type refResult struct {
 	unknown  bool
 }
 
+// lenientBadArg switches the reference to the reading of the code before
+// fixes/C38-noarg-attached-arg.patch: --name=value for an option that takes no
+// argument delivers the option with that argument and is no error.  It is only
+// used to CLASSIFY a mismatch as the noarg-long-attached-arg defect.
+var lenientBadArg = false
+
 // legacyEmptyNames switches the reference to the reading in which an absent
 // name (Long == "", Short == 0) can be matched by an option word; it is only
 // used to CLASSIFY a mismatch as the empty-name-match defect.
@@ -410,7 +416,11 @@ func refParse(args []string, specs []*getopt.OptionSpec, cfg int) refResult {
 				r.missing = &o
 				continue
 			}
-			r.badArg = r.badArg || o.badArg
+			if o.badArg && !lenientBadArg {
+				// getopt_long: "option doesn't allow an argument"; no option is delivered
+				r.badArg = true
+				continue
+			}
 			r.unknown = r.unknown || o.k < 0
 			r.opts = append(r.opts, o)
 		}
@@ -545,7 +555,7 @@ func parseAgrees(want refResult, opts []*getopt.Option, rest []string, err error
 	if !sameStrings(rest, want.operands) {
 		return "operands-mismatch"
 	}
-	wantErr := want.missing != nil || want.unknown
+	wantErr := want.missing != nil || want.unknown || want.badArg
 	if (err != nil) != wantErr {
 		return "error-mismatch"
 	}
@@ -580,6 +590,12 @@ func classify(generic string, args []string, specs []*getopt.OptionSpec, cfg int
 	if ok {
 		return "empty-name-match"
 	}
+	lenientBadArg = true
+	ok = agrees(refParse(args, specs, cfg))
+	lenientBadArg = false
+	if ok {
+		return "noarg-long-attached-arg"
+	}
 	if invalidUTF8Cluster(args, cfg) {
 		return "invalid-utf8-short-width"
 	}
@@ -595,9 +611,8 @@ func checkParse(args []string, specs []*getopt.OptionSpec, cfg int) (string, str
 		cls := classify(m, args, specs, cfg, func(w refResult) bool { return parseAgrees(w, opts, rest, err, specs) == "" })
 		return cls, ctxt + fmt.Sprintf("; reference reading: opts=%+v operands=%q missing=%v", want.opts, want.operands, want.missing != nil)
 	}
-	if want.badArg && !want.unknown && want.missing == nil {
-		// GNU/BSD: "option '--name' doesn't allow an argument"; here: accepted silently
-		return "noarg-long-attached-arg", "--name=value for an option that takes no argument is accepted without error; " + ctxt
+	if want.badArg && !strings.Contains(err.Error(), "doesn't take an argument") {
+		return "error-mismatch", "no error names the option that got an argument it does not take; " + ctxt
 	}
 	return "", ""
 }
@@ -746,9 +761,9 @@ func oracle1(sta any, f []string, out string) (string, string) {
 		}
 		// through the interpreter: the same reading
 		want := refParse(args, specs, cfg)
-		wantErr := want.missing != nil || want.unknown
+		wantErr := want.missing != nil || want.unknown || want.badArg
 		agrees := func(want refResult) bool {
-			wantErr := want.missing != nil || want.unknown
+			wantErr := want.missing != nil || want.unknown || want.badArg
 			if strings.HasPrefix(out, "ERR ") != wantErr {
 				return false
 			}
@@ -768,12 +783,6 @@ func oracle1(sta any, f []string, out string) (string, string) {
 		if !agrees(want) {
 			cls := classify("fpg-mismatch", args, specs, cfg, agrees)
 			return cls, fmt.Sprintf("cfg=%d specs=%s args=%q: got %s; reference reading: opts=%+v operands=%q error=%v", cfg, descSpecs(specs), args, out, want.opts, want.operands, wantErr)
-		}
-		if wantErr {
-			return "", ""
-		}
-		if want.badArg {
-			return "noarg-long-attached-arg", fmt.Sprintf("flag:parse-getopt accepts --name=value for a flag without argument: specs=%s args=%q", descSpecs(specs), args)
 		}
 		return "", ""
 	case "ecg":
